@@ -93,7 +93,64 @@ def extract_grammar(src: Source, lexer_tokens: dict[str, list], rel="language/gr
     chain: dict[str, list] = {}
     error_func = None
     attrs = {}
+    import copy as _copy
+
+    def unroll(loop: ast.For):
+        """A class-body `for <vars> in <constant table>:` that defines rule functions: one copy of its body per row, with the
+        loop variables replaced in decorators and parameter defaults (where they are evaluated at definition time)."""
+        it = loop.iter
+        if isinstance(it, ast.Name):
+            it = attrs.get(it.id)
+            if it is None:
+                _m2, node = src.resolve_name(mod, loop.iter.id)
+                it = getattr(node, "value", None)
+        if not isinstance(it, (ast.Tuple, ast.List)) or loop.orelse:
+            raise AnalysisError(f"{c.name}: class-body loop over something other than a constant table: {norm(loop)[:120]}")
+        names = [loop.target.id] if isinstance(loop.target, ast.Name) else [e.id for e in loop.target.elts if isinstance(e, ast.Name)]
+        out = []
+        for row in it.elts:
+            vals = [row] if isinstance(loop.target, ast.Name) else list(getattr(row, "elts", []))
+            if len(vals) != len(names):
+                raise AnalysisError(f"{c.name}: class-body loop row does not match its targets: {norm(row)[:80]}")
+            bind = dict(zip(names, vals))
+
+            class Sub(ast.NodeTransformer):
+                def visit_Name(self, n_):
+                    if isinstance(n_.ctx, ast.Load) and n_.id in bind:
+                        return _copy.deepcopy(bind[n_.id])
+                    return n_
+            for b_ in loop.body:
+                if isinstance(b_, ast.FunctionDef):
+                    f2 = _copy.deepcopy(b_)
+                    f2.decorator_list = [Sub().visit(d_) for d_ in f2.decorator_list]
+                    f2.args.defaults = [Sub().visit(d_) for d_ in f2.args.defaults]
+                    f2.args.kw_defaults = [Sub().visit(d_) if d_ is not None else None for d_ in f2.args.kw_defaults]
+                    out.append(f2)
+                elif isinstance(b_, (ast.Pass, ast.Expr)):
+                    continue
+                else:
+                    raise AnalysisError(f"{c.name}: statement in a class-body loop not understood: {norm(b_)[:100]}")
+        return out
+
+    body = []
     for st in c.body:
+        if isinstance(st, ast.For):
+            # the table must have been seen already: process in order
+            body.append(st)
+        else:
+            body.append(st)
+    expanded = []
+    for st in body:
+        if isinstance(st, ast.Assign) and len(st.targets) == 1 and isinstance(st.targets[0], ast.Name):
+            attrs[st.targets[0].id] = st.value
+        if isinstance(st, ast.For):
+            expanded.extend(unroll(st))
+        elif isinstance(st, ast.Delete):
+            continue
+        else:
+            expanded.append(st)
+    attrs.clear()
+    for st in expanded:
         if isinstance(st, ast.Expr) and isinstance(st.value, ast.Constant):
             continue
         if isinstance(st, ast.Assign) and len(st.targets) == 1 and isinstance(st.targets[0], ast.Name):
